@@ -38,7 +38,8 @@ ANCHORS = ['manifest:ManifestFile.load', 'manifest:ManifestFile.dump',
            'compression:open_potentially_compressed_path']
 REQUIRED = ['manifest:ManifestFile.load', 'manifest:ManifestFile.dump',
             'contract:encoded_path', 'redump_checked', 'native_equality_checks',
-            'interleaved_checked', 'timestamp_roundtrips_other_tz']
+            'interleaved_checked', 'timestamp_roundtrips_other_tz',
+            'surrogate_pair_paths', 'long_line_entries']
 ASSUMPTIONS = ['timestamps are naive datetimes (taken as UTC), with or without '
                'microseconds; timezone-aware values are not generated',
                'checksum names/values are non-empty tokens without whitespace']
@@ -70,6 +71,7 @@ def units(tier, seed):
         u.append({'k': 'fix', 'i': i, 'n': 40})
     for i in range(nfile):
         u.append({'k': 'file', 'i': i, 'n': 4})
+    u.append({'k': 'special'})
     # all 25 format pairs x 2 usage patterns at least once
     for i in range(50 if tier == 'quick' else 1000):
         u.append({'k': 'interleaved', 'i': i, 'n': 1 if tier == 'quick' else 3})
@@ -355,6 +357,39 @@ def interleaved_roundtrip(ctx, ents_a, ents_b, fmt_a, fmt_b, pattern, case):
     return True
 
 
+def run_special(u, ctx):
+    """Paths no random draw is likely to produce: a high surrogate directly followed
+    by a low one (two code points, not one astral character), and lines far longer
+    than any read buffer (a long plain path, a long path that needs an escape for
+    every character, many long checksum values)."""
+    highs = [0xd800, 0xd801, 0xd83d, 0xdb7f, 0xdb80, 0xdbff]
+    lows = [0xdc00, 0xdc01, 0xde00, 0xdf7f, 0xdf80, 0xdfff]
+    ents = []
+    for h in highs:
+        for lo in lows:
+            pair = chr(h) + chr(lo)
+            ents.append({'tag': 'DATA', 'path': pair, 'size': h, 'sums': {}})
+            ents.append({'tag': 'IGNORE', 'path': 'a' + pair + 'b'})
+            ents.append({'tag': 'AUX', 'path': chr(lo) + chr(h) + pair, 'size': 1,
+                         'sums': {}})
+            ents.append({'tag': 'MANIFEST', 'path': pair + '/' + pair, 'size': 2,
+                         'sums': {'MD5': 'ab' * 16}})
+    for i in range(0, len(ents), 24):
+        exec_case({'kind': 'rand', 'entries': ents[i:i + 24]}, ctx)
+    ctx.count('surrogate_pair_paths', len(ents))
+    for n in (8000, 16384, 20000, 65536, 70000, 200000):
+        longs = [{'tag': 'DATA', 'path': 'p' * n, 'size': n, 'sums': {}},
+                 {'tag': 'IGNORE', 'path': 'd/' + 'q' * n},
+                 {'tag': 'DATA', 'path': ' ' * (n // 6), 'size': 1, 'sums': {}},
+                 {'tag': 'DIST', 'path': 'x.tar', 'size': 3,
+                  'sums': {'SHA512': 'a' * n, 'MD5': 'b' * 32}}]
+        for e in longs:
+            exec_case({'kind': 'rand', 'entries': [e, {'tag': 'IGNORE', 'path': 'z'}]}, ctx)
+            for fmt in ('plain', 'gz'):
+                exec_case({'kind': 'file', 'fmt': fmt, 'entries': [e]}, ctx)
+        ctx.count('long_line_entries', len(longs))
+
+
 def run_interleaved(u, ctx):
     for j in range(u['n']):
         rng = common.rng_for(ctx.seed, ID, 'inter', u['i'], j)
@@ -543,7 +578,8 @@ def exec_case(case, ctx):
 
 def run_unit(u, ctx):
     {'cp': run_cp, 'rand': run_rand, 'fix': run_fix, 'file': run_file,
-     'cpfile': run_cpfile, 'interleaved': run_interleaved}[u['k']](u, ctx)
+     'cpfile': run_cpfile, 'interleaved': run_interleaved,
+     'special': run_special}[u['k']](u, ctx)
 
 
 def replay(case, ctx):
